@@ -225,13 +225,30 @@ class Context:
                                                  'spec tables under sa/spec (transcribed from the BIPs)'],
                 'exhaustive': False,
             },
-            'assumptions': self.trusted,
+            'assumptions': _assumptions(self),
             'wall_s': round(time.time() - self.t0, 3),
             'violations': len(violations),
         }
         ev['coverage'].update(self.extra)
         with open(os.path.join(VERIF, 'evidence', '%s.json' % self.pid), 'w') as f:
             json.dump(ev, f, indent=1, default=str)
+
+
+def _assumptions(ctx):
+    """what this check trusts: the engine's own trusted base, the per-property note of claims.json (trusted facts about
+    the specification / libraries) and the clauses the check states it does not decide"""
+    out = list(ctx.trusted or ['CPython ast module parses the source as the interpreter does', 'the analyser itself (sa/*.py): '
+                               'summary table of external functions (sa/externals.py), algebraic laws of the term constructors (sa/terms.py)',
+                               'specification tables and reference transcriptions under sa/spec (transcribed from the BIPs)'])
+    try:
+        with open(os.path.join(VERIF, 'claims.json')) as f:
+            note = json.load(f).get(ctx.pid, {}).get('note')
+        if note:
+            out.append(note)
+    except Exception:
+        pass
+    out.extend('not decided: %s' % x for x in (ctx.not_decided or []))
+    return out
 
 
 def load_known():
